@@ -334,6 +334,102 @@ def canon_model_doc(d: dict) -> dict:
     return d
 
 
+# ---------------------------------------------------------------------------------------------- whole element tree
+
+
+REQIF_NS = "http://www.omg.org/spec/ReqIF/20110401/reqif.xsd"
+XSI_NS = "http://www.w3.org/2001/XMLSchema-instance"
+
+
+def parse_tree(data: bytes) -> dict:
+    """The re-parsed bytes as the JSON element tree of the driver's `tree` op (local names, every attribute, text,
+    children in document order; XHTML subtrees as one canonical string)."""
+    from lxml import etree
+
+    def conv(e):
+        if not isinstance(e.tag, str):
+            return {"t": f"!{type(e).__name__}", "a": [], "x": e.text, "c": []}
+        q = etree.QName(e)
+        if q.namespace == XHTML_NS:
+            return {"raw": canon(e)}
+        tag = q.localname if q.namespace == REQIF_NS else e.tag
+        attrs = []
+        for k, v in e.attrib.items():
+            kq = etree.QName(k)
+            attrs.append([("xsi:" + kq.localname) if kq.namespace == XSI_NS else k, v])
+        return {"t": tag, "a": attrs, "x": e.text, "c": [conv(c) for c in e]}
+
+    return conv(etree.fromstring(data))
+
+
+def canon_tree(t: dict, n_std: int) -> dict:
+    """attributes sorted by name (XML attribute order is insignificant), empty text = no text, the set-ordered custom
+    attribute definitions of a SPEC-OBJECT-TYPE sorted by IDENTIFIER"""
+    if "raw" in t:
+        return t
+    kids = [canon_tree(c, n_std) for c in t["c"]]
+    return {"t": t["t"], "a": sorted(t["a"]), "x": t["x"] or None, "c": kids}
+
+
+def sort_set_ordered(t: dict, n_std: int) -> dict:
+    if "raw" in t:
+        return t
+    kids = [sort_set_ordered(c, n_std) for c in t["c"]]
+    if t["t"] == "SPEC-OBJECT-TYPE":
+        for c in kids:
+            if c.get("t") == "SPEC-ATTRIBUTES":
+                c["c"] = c["c"][:n_std] + sorted(c["c"][n_std:], key=lambda a: dict(a["a"]).get("IDENTIFIER", ""))
+    return {**t, "c": kids}
+
+
+def tree_scan(t: dict) -> tuple[list, list]:
+    """(IDENTIFIER values, texts of *-REF elements) in document order — the harness's own scan of a JSON tree"""
+    ids, refs = [], []
+
+    def walk(e):
+        if "raw" in e:
+            return
+        for k, v in e["a"]:
+            if k == "IDENTIFIER":
+                ids.append(v)
+        if e["t"].endswith("-REF"):
+            refs.append(e["x"] or "")
+        for c in e["c"]:
+            walk(c)
+
+    walk(t)
+    return ids, refs
+
+
+MD_VARIANTS = 6
+
+
+def metadata_variant(i: int):
+    """(metadata argument of to_reqif, the same as the model's `metadata` input)"""
+    tz = datetime.timezone(datetime.timedelta(hours=5, minutes=30))
+    i %= MD_VARIANTS
+    if i == 0:
+        md = {"creation_time": FIXED_TIME}
+    elif i == 1:
+        md = {"creation_time": FIXED_TIME, "comment": "c <&> \"ü\"", "title": "T ]]> t"}
+    elif i == 2:
+        md = {"creation_time": datetime.datetime(2031, 12, 31, 23, 59, 59, tzinfo=tz), "title": ""}
+    elif i == 3:
+        md = None  # creation time = now: read back from the header and handed to the model as `now`
+    elif i == 4:
+        md = {"comment": "", "unsupported": 1}
+    else:
+        md = {"creation_time": FIXED_TIME, "title": "only title", "author": "ignored"}
+    return md
+
+
+def md_json(md) -> dict:
+    md = md or {}
+    ct = md.get("creation_time")
+    return {"comment": md.get("comment"), "title": md.get("title"),
+            "creation_time": None if ct is None else ct.astimezone(datetime.timezone.utc).strftime("%Y-%m-%dT%H:%M:%SZ")}
+
+
 # ---------------------------------------------------------------------------------------------- monitor (raw XML vs bytes)
 
 
@@ -784,13 +880,82 @@ class Env:
         return sorted(str(p.relative_to(common.REPO)) for p in base.rglob("*.aird"))
 
 
-def export_once(mod) -> tuple[bytes | None, BaseException | None]:
+def export_once(mod, md: dict | None = {"creation_time": FIXED_TIME}) -> tuple[bytes | None, BaseException | None]:  # noqa: B006
     buf = io.BytesIO()
     try:
-        mod.to_reqif(buf, metadata={"creation_time": FIXED_TIME})
+        mod.to_reqif(buf, metadata=md)
     except Exception as e:  # noqa: BLE001
         return None, e
     return buf.getvalue(), None
+
+
+def case_variant(case: dict) -> int:
+    """which metadata variant a case is exported with (a function of the case, so that a replay repeats it)"""
+    return case["md"] if "md" in case else len(case.get("ops", []))
+
+
+def monitor_header(mod, data: bytes, md: dict | None, t0: datetime.datetime, t1: datetime.datetime) -> list[tuple[str, str]]:
+    """The document skeleton and the header, read from the bytes only: REQ-IF / THE-HEADER / REQ-IF-HEADER with its six
+    fields once each, CORE-CONTENT / REQ-IF-CONTENT with its six sections once each, everything in the ReqIF namespace,
+    CREATION-TIME = the requested instant (or the time of the call), LAST-CHANGE of every identified element = CREATION-TIME,
+    TITLE / COMMENT = metadata or the raw long name."""
+    from lxml import etree
+
+    bad: list[tuple[str, str]] = []
+    try:
+        root = etree.fromstring(data)
+    except Exception:  # noqa: BLE001
+        return []  # reported by `monitor`
+    ln = lambda e: etree.QName(e).localname  # noqa: E731
+    for e in root.iter():
+        if isinstance(e.tag, str) and etree.QName(e).namespace not in (REQIF_NS, XHTML_NS):
+            bad.append(("to_reqif|skeleton|namespace", f"<{e.tag}> is not in the ReqIF namespace"))
+            break
+    shape = [ln(c) for c in root]
+    if ln(root) != "REQ-IF" or shape != ["THE-HEADER", "CORE-CONTENT"]:
+        bad.append(("to_reqif|skeleton|root", f"{ln(root)} has children {shape}"))
+        return bad
+    hdrs = list(root[0])
+    if [ln(h) for h in hdrs] != ["REQ-IF-HEADER"] or not hdrs[0].get("IDENTIFIER"):
+        bad.append(("to_reqif|skeleton|header", f"THE-HEADER holds {[ln(h) for h in hdrs]}"))
+        return bad
+    fields = {}
+    for c in hdrs[0]:
+        fields.setdefault(ln(c), []).append(c.text or "")
+    want_fields = ["COMMENT", "CREATION-TIME", "REQ-IF-TOOL-ID", "REQ-IF-VERSION", "SOURCE-TOOL-ID", "TITLE"]
+    if sorted(fields) != want_fields or any(len(v) != 1 for v in fields.values()):
+        bad.append(("to_reqif|skeleton|header-fields", f"REQ-IF-HEADER holds {sorted((k, len(v)) for k, v in fields.items())}"))
+        return bad
+    content = list(root[1])
+    sections = [ln(c) for c in content[0]] if len(content) == 1 and ln(content[0]) == "REQ-IF-CONTENT" else None
+    if sections is None or sorted(sections) != sorted(["DATATYPES", "SPEC-TYPES", "SPEC-OBJECTS", "SPEC-RELATIONS", "SPECIFICATIONS", "SPEC-RELATION-GROUPS"]):
+        bad.append(("to_reqif|skeleton|content", f"CORE-CONTENT holds {[ln(c) for c in content]} / {sections}"))
+    if fields["REQ-IF-VERSION"][0] not in ("1.0", "1.0.1", "1.1", "1.2"):
+        bad.append(("to_reqif|header|version", f"REQ-IF-VERSION {fields['REQ-IF-VERSION'][0]!r}"))
+    ct = fields["CREATION-TIME"][0]
+    try:
+        inst = datetime.datetime.strptime(ct, "%Y-%m-%dT%H:%M:%SZ").replace(tzinfo=datetime.timezone.utc)
+    except ValueError:
+        bad.append(("to_reqif|header|creation-time", f"CREATION-TIME {ct!r} is not a UTC timestamp"))
+        inst = None
+    want_ct = (md or {}).get("creation_time")
+    if inst is not None:
+        if want_ct is not None and inst != want_ct.astimezone(datetime.timezone.utc).replace(microsecond=0):
+            bad.append(("to_reqif|header|creation-time", f"CREATION-TIME {ct!r} for requested {want_ct.isoformat()}"))
+        if want_ct is None and not (t0.replace(microsecond=0) <= inst <= t1):
+            bad.append(("to_reqif|header|creation-time", f"CREATION-TIME {ct!r} is not the time of the call ({t0.isoformat()}…{t1.isoformat()})"))
+    for e in root.iter():
+        if isinstance(e.tag, str) and e.get("IDENTIFIER") is not None and ln(e) != "REQ-IF-HEADER" and e.get("LAST-CHANGE") != ct:
+            bad.append(("to_reqif|header|last-change", f"<{ln(e)} {e.get('IDENTIFIER')}> LAST-CHANGE {e.get('LAST-CHANGE')!r}, CREATION-TIME {ct!r}"))
+            break
+    want_title = (md or {}).get("title", mod._element.get("ReqIFLongName") or "")
+    if fields["TITLE"][0] != want_title:
+        bad.append(("to_reqif|header|title", f"TITLE {fields['TITLE'][0]!r}, expected {want_title!r}"))
+    if md and "comment" in md and fields["COMMENT"][0] != md["comment"]:
+        bad.append(("to_reqif|header|comment", f"COMMENT {fields['COMMENT'][0]!r}, expected {md['comment']!r}"))
+    if hdrs[0].get("IDENTIFIER") != "_" + mod._model.uuid.upper():
+        bad.append(("to_reqif|header|identifier", f"header IDENTIFIER {hdrs[0].get('IDENTIFIER')!r}"))
+    return bad
 
 
 def err_name(e: BaseException) -> str:
@@ -807,10 +972,17 @@ def evaluate(env: Env, mod, case: dict, out: Outcome, pending: list) -> list[tup
     """Run one module state: implementation, monitor; queue the correspondence request."""
     desc = describe(mod, env.reqif)
     feats = features(desc)
-    data, exc = export_once(mod)
+    variant = case_variant(case)
+    md = metadata_variant(variant)
+    t0 = datetime.datetime.now(datetime.timezone.utc)
+    data, exc = export_once(mod, md)
+    t1 = datetime.datetime.now(datetime.timezone.utc)
     found = monitor(mod, data, exc, feats)
+    if data is not None:
+        found += monitor_header(mod, data, md, t0, t1)
     for sig, what in found:
         out.find(sig, what, case)
+    out.hit(f"metadata:variant-{variant % MD_VARIANTS}")
     nreq = len(all_reqs(desc))
     nontrivial = bool(desc["folders"] and any(all_reqs(f) for f in desc["folders"])) or any(r["attrs"] for r in all_reqs(desc))
     key = common.sha(desc)
@@ -827,7 +999,23 @@ def evaluate(env: Env, mod, case: dict, out: Outcome, pending: list) -> list[tup
             impl = {"unparsable": repr(e)[:200]}
     else:
         impl = {"err": err_name(exc)}
-    pending.append(({"op": "export", "module": desc, "xhtml": xhtml_table(desc)}, impl, case))
+    xt = xhtml_table(desc)
+    pending.append(({"op": "export", "module": desc, "xhtml": xt}, impl, case))
+    # whole-tree stream: same module, plus the header inputs
+    if exc is None:
+        try:
+            itree = parse_tree(data)
+            now = next((c["x"] for h in itree["c"][0]["c"] for c in h["c"] if c["t"] == "CREATION-TIME"), "") or ""
+            itree = canon_tree(itree, env.n_so)
+        except Exception as e:  # noqa: BLE001
+            itree, now = {"unparsable": repr(e)[:200]}, ""
+        timpl = {"tree": itree}
+    else:
+        timpl, now = {"err": err_name(exc)}, ""
+    envj = {"default_comment": "Requirements module " + repr(mod.name) + " from " + repr(mod._model.name),
+            "now": now, "tool_id": "capellambse v" + env.capellambse.__version__,
+            "source_tool_id": "Capella " + str(mod._model.info.capella_version)}
+    pending.append(({"op": "tree", "module": desc, "xhtml": xt, "env": envj, "metadata": md_json(md)}, timpl, case))
     return found
 
 
@@ -976,7 +1164,7 @@ def run(ctx: Ctx) -> Outcome:
         mods = list(model.search(env.reqif.CapellaModule))
         for mod in mods:
             n_mod += 1
-            evaluate(env, mod, {"kind": "corpus", "model": rel, "module": mod.uuid}, out, pending)
+            evaluate(env, mod, {"kind": "corpus", "model": rel, "module": mod.uuid, "md": n_mod}, out, pending)
             if n_mod <= ctx.pick(4, 1000):
                 bad, seen = monitor_compress(mod, ctx.scratch)
                 for sig, what in bad:
@@ -1067,6 +1255,9 @@ def run(ctx: Ctx) -> Outcome:
                 ans = exp_answers[ei]
                 ei += 1
                 mv = ans.get("ok", {"driver-error": ans.get("err")})
+                if reqline["op"] == "tree":
+                    compare_tree(env, out, case, impl, mv)
+                    continue
                 if "doc" in mv:
                     mv = {"doc": canon_model_doc(mv["doc"]), "dfs": mv["dfs"]}
                 if mv != impl:
@@ -1081,6 +1272,26 @@ def run(ctx: Ctx) -> Outcome:
                     out.disagree("compress-decision", case, impl, mv)
                 out.hit("stream:compress-decision")
     return out
+
+
+def compare_tree(env: "Env", out: Outcome, case: dict, impl: dict, mv: dict) -> None:
+    """stream `tree`: the whole element tree of the model against the re-parsed bytes"""
+    out.hit("stream:tree")
+    if "tree" in mv:
+        mt = canon_tree(mv["tree"], env.n_so)
+        # the model's own scans (Lean `Xml.idents` / `Xml.refTexts`) against the harness's scan of the same tree
+        ids, refs = tree_scan(mt)
+        if ids != mv["idents"] or refs != mv["refs"]:
+            out.disagree("tree-scan", {k: v for k, v in case.items()}, _first_diff({"idents": ids, "refs": refs}, {"idents": mv["idents"], "refs": mv["refs"]}),
+                         "Lean scan of the model tree differs from the harness scan of the same tree (path, harness, Lean)")
+        mv = {"tree": sort_set_ordered(mt, env.n_so)}
+        out.hit("tree:ok")
+    else:
+        out.hit("tree:" + str(mv.get("err", "driver-error")))
+    if "tree" in impl and "unparsable" not in impl["tree"]:
+        impl = {"tree": sort_set_ordered(impl["tree"], env.n_so)}
+    if mv != impl:
+        out.disagree("tree", {k: v for k, v in case.items()}, _first_diff(impl, mv), "see impl field (first difference: path, impl, model)")
 
 
 def _first_diff(a, b, path="$"):
@@ -1111,8 +1322,12 @@ def replay(ctx: Ctx, case: dict):
     if case["kind"] == "corpus":
         mod = env.model(case["model"]).by_uuid(case["module"])
         desc = describe(mod, env.reqif)
-        data, exc = export_once(mod)
+        md = metadata_variant(case_variant(case))
+        t0 = datetime.datetime.now(datetime.timezone.utc)
+        data, exc = export_once(mod, md)
         found = monitor(mod, data, exc, features(desc))
+        if data is not None:
+            found += monitor_header(mod, data, md, t0, datetime.datetime.now(datetime.timezone.utc))
     elif case["kind"] == "compress":
         mod = env.model(case["model"]).by_uuid(case["module"])
         found, _ = monitor_compress(mod, ctx.scratch)
